@@ -680,7 +680,11 @@ func (e *Engine) freshVal(st *State, hint string, t types.Type) Val {
 	so := e.sortOf(t)
 	x := e.fresh(hint, so)
 	e.rangeAssume(st, x, t)
-	return e.reflect(st, x, t)
+	r := e.reflect(st, x, t)
+	if _, isS := t.Underlying().(*types.Struct); isS {
+		e.assumeFieldRanges(st, r, t, 3)
+	}
+	return r
 }
 
 // modelled: can values of this type be given an SMT sort?
